@@ -23,25 +23,9 @@ PAIRS = {'pubo_to_puso': ('PUBO', 'PUSO'), 'puso_to_pubo': ('PUSO', 'PUBO'),
          'qubo_to_quso': ('QUBO', 'QUSO'), 'quso_to_qubo': ('QUSO', 'QUBO')}
 
 
-def rules(ctx):
-    P, R = ctx.prog, ctx.res
-    from .C14 import derived_fields
-    ctx.rule('R04.10', "a field of model objects outside the frozen bookkeeping fields that is written together with the terms / a bookkeeping field is written by every other mutator of that state (no stale memo)", floor=1)
-    derived_fields(ctx, 'R04.10')
-    ctx.rule('R04.1', "result type dispatch: BMatrix iff type(arg) == AMatrix, labelled B otherwise", floor=4)
-    ctx.rule('R04.2', "literal correspondence tables are mutual inverses (0<->1, 1<->-1); is_solution_spin polarity; "
-                      "decimal helpers compose the matching pair", floor=5)
-    ctx.rule('R04.3', "Conversions defaults pair the matching functions; no default-only cycle for any concrete class", floor=20)
-    ctx.rule('R04.4', "convert_solution polarity / converter / default flag table", floor=4)
-    ctx.rule('R04.5', "stores into result models inside term loops accumulate", floor=14)
-    ctx.rule('R04.6', "enumerated forms relabel every label through self._mapping", floor=3)
-    ctx.rule('R04.7', "to_enumerated reflection targets", floor=6)
-    ctx.rule('R04.8', "export properties select terms by key length", floor=3)
-    ctx.rule('R04.9', "premise of the relabelling: the mapping is kept in step with the variable count (registration "
-                      "parity), refresh rebuilds it through the model's full constructor, convert_solution decodes "
-                      "exactly range(num_binary_variables)", floor=12)
-
-    # ---------------------------------------------------------------- R04.1
+def result_type_dispatch(ctx, rid):
+    """R04.1: the conversion functions give the Matrix kind only for the exact Matrix type of the argument."""
+    P = ctx.prog
     for name, (A, B) in PAIRS.items():
         fn = P.func('_conversions.%s' % name)
         arg = fn.params[0]
@@ -67,8 +51,64 @@ def rules(ctx):
                         why = "matrix input does not give %sMatrix()" % B
                     elif not oko:
                         why = "non-matrix input does not give the labelled %s()" % B
-        ctx.inst('R04.1', fn, 'result type of %s' % name, ok,
+        ctx.inst(rid, fn, 'result type of %s' % name, ok,
                  "%sMatrix in -> %sMatrix out, anything else -> %s" % (A, B, B) if ok else why)
+
+
+
+def element_conversion(ctx, rid):
+    """boolean_to_spin / spin_to_boolean convert the elements of a container by looking them up in the literal table (by
+    value: 1, 1.0, numpy.int64(1) and True all find their entry); an element is not sent through a type dispatch again."""
+    P = ctx.prog
+    for name in ('boolean_to_spin', 'spin_to_boolean'):
+        fn = P.func('_conversions.%s' % name)
+        tab = None
+        for n in walk_no_nested(strip_docstring(fn.node.body)):
+            if isinstance(n, ast.Assign) and isinstance(n.value, ast.Dict) and isinstance(n.targets[0], ast.Name):
+                tab = n.targets[0].id
+        comps = [n for n in ast.walk(fn.node) if isinstance(n, (ast.DictComp, ast.ListComp, ast.GeneratorExp, ast.SetComp))]
+        seen = 0
+        for c in comps:
+            elt = c.value if isinstance(c, ast.DictComp) else c.elt
+            tv = {x.id for g_ in c.generators for x in ast.walk(g_.target) if isinstance(x, ast.Name)}
+            if not (names_in(elt) & tv):
+                continue
+            seen += 1
+            ok = isinstance(elt, ast.Subscript) and is_name(elt.value, tab) and isinstance(elt.slice, ast.Name) and elt.slice.id in tv
+            ctx.inst(rid, fn, c, ok,
+                     "elements converted by table lookup %s[...]" % tab if ok else
+                     "container elements are converted by `%s`, not by looking them up in the table `%s`: values that equal "
+                     "0 / 1 / -1 without being Python ints (numpy integers, ...) are no longer converted" % (src(elt)[:50], tab))
+        if not seen:
+            loops = [n for n in ast.walk(fn.node) if isinstance(n, ast.For)]
+            ok = any(isinstance(x, ast.Subscript) and is_name(x.value, tab) for l in loops for x in ast.walk(l))
+            ctx.inst(rid, fn, 'element conversion', ok, "elements converted by table lookup in a loop" if ok else
+                     "no table lookup of container elements found in %s" % name)
+
+
+def rules(ctx):
+    P, R = ctx.prog, ctx.res
+    from .C14 import no_module_state
+    ctx.rule('R04.11', "no function writes module-level state (memo / registry): results independent of earlier calls", floor=1)
+    no_module_state(ctx, 'R04.11')
+    from .C14 import derived_fields
+    ctx.rule('R04.10', "a field of model objects outside the frozen bookkeeping fields that is written together with the terms / a bookkeeping field is written by every other mutator of that state (no stale memo)", floor=1)
+    derived_fields(ctx, 'R04.10')
+    ctx.rule('R04.1', "result type dispatch: BMatrix iff type(arg) == AMatrix, labelled B otherwise", floor=4)
+    ctx.rule('R04.2', "literal correspondence tables are mutual inverses (0<->1, 1<->-1); is_solution_spin polarity; "
+                      "decimal helpers compose the matching pair", floor=5)
+    ctx.rule('R04.3', "Conversions defaults pair the matching functions; no default-only cycle for any concrete class", floor=20)
+    ctx.rule('R04.4', "convert_solution polarity / converter / default flag table", floor=4)
+    ctx.rule('R04.5', "stores into result models inside term loops accumulate", floor=14)
+    ctx.rule('R04.6', "enumerated forms relabel every label through self._mapping", floor=3)
+    ctx.rule('R04.7', "to_enumerated reflection targets", floor=6)
+    ctx.rule('R04.8', "export properties select terms by key length", floor=3)
+    ctx.rule('R04.9', "premise of the relabelling: the mapping is kept in step with the variable count (registration "
+                      "parity), refresh rebuilds it through the model's full constructor, convert_solution decodes "
+                      "exactly range(num_binary_variables)", floor=12)
+
+    # ---------------------------------------------------------------- R04.1
+    result_type_dispatch(ctx, 'R04.1')
 
     # ---------------------------------------------------------------- R04.2
     tabs = {}
@@ -87,6 +127,7 @@ def rules(ctx):
              "0 -> 1, 1 -> -1" if b2s == {0: 1, 1: -1} else "boolean_to_spin table is %s, documented {0: 1, 1: -1}" % b2s)
     ctx.inst('R04.2', tabs['spin_to_boolean'][0], 'convert table', s2b == {1: 0, -1: 1},
              "1 -> 0, -1 -> 1" if s2b == {1: 0, -1: 1} else "spin_to_boolean table is %s, documented {1: 0, -1: 1}" % s2b)
+    element_conversion(ctx, 'R04.2')
     inv = bool(b2s) and bool(s2b) and {v: k for k, v in b2s.items()} == s2b
     ctx.inst('R04.2', tabs['spin_to_boolean'][0], 'tables are mutual inverses', inv,
              "mutual inverses" if inv else "the two tables are not inverse to each other")
